@@ -22,6 +22,105 @@ from . import kernel
 from .vclock import StepBudgetExceeded, UTYPE_DIR
 
 
+CURRENT = [None]   # the Scheduler that is running simulated threads right now (None outside a simulation)
+
+
+class CoopLock:
+    """Replacement for threading.Lock/RLock objects inside utype: blocking gives the baton away instead of
+    blocking the OS thread (which would stall the simulation); 'everyone blocked' is reported as a deadlock."""
+
+    def __init__(self, reentrant=False):
+        self.reentrant = reentrant
+        self.owner = None
+        self.count = 0
+
+    def acquire(self, blocking=True, timeout=-1):
+        sched = CURRENT[0]
+        if sched is None:
+            self.owner = "main"
+            self.count += 1
+            return True
+        me = sched.current
+        while self.owner is not None and not (self.reentrant and self.owner == me):
+            if not blocking:
+                return False
+            sched.probe("lock_contended")
+            sched.block(me, self)
+        self.owner = me
+        self.count += 1
+        return True
+
+    def release(self):
+        self.count -= 1
+        if self.count <= 0:
+            self.count = 0
+            self.owner = None
+            sched = CURRENT[0]
+            if sched is not None:
+                sched.unblock(self)
+
+    def locked(self):
+        return self.owner is not None
+
+    def __enter__(self):
+        self.acquire()
+        return self
+
+    def __exit__(self, *a):
+        self.release()
+        return False
+
+
+class _ThreadingShim:
+    """Stands in for the `threading` module name inside utype modules that create locks at run time."""
+
+    def __init__(self, real):
+        self._real = real
+
+    def Lock(self):
+        return CoopLock(False)
+
+    def RLock(self):
+        return CoopLock(True)
+
+    def __getattr__(self, name):
+        return getattr(self._real, name)
+
+
+def install_coop_locks():
+    """Replace every lock object reachable from utype's modules, classes and the two global registries, and the
+    `threading` name those modules use, by cooperative versions. Returns how many were replaced."""
+    import sys as _sys
+    import threading as _threading
+    lock_types = (type(_threading.Lock()), type(_threading.RLock()))
+    n = 0
+
+    def fix(holder, getter, setter):
+        nonlocal n
+        for name, val in list(getter(holder)):
+            if isinstance(val, lock_types):
+                setter(holder, name, CoopLock(isinstance(val, lock_types[1])))
+                n += 1
+    for mname, mod in list(_sys.modules.items()):
+        if not (mname == "utype" or mname.startswith("utype.")) or mod is None:
+            continue
+        if mod.__dict__.get("threading") is _threading:
+            mod.__dict__["threading"] = _ThreadingShim(_threading)
+        fix(mod, lambda m: m.__dict__.items(), lambda m, k, v: m.__dict__.__setitem__(k, v))
+        for obj in list(mod.__dict__.values()):
+            if isinstance(obj, type) and getattr(obj, "__module__", "").startswith("utype"):
+                fix(obj, lambda c: c.__dict__.items(), lambda c, k, v: setattr(c, k, v))
+                for sub in list(obj.__dict__.values()):
+                    d = getattr(sub, "__dict__", None)
+                    if isinstance(d, dict) and not isinstance(sub, type):
+                        fix(sub, lambda o: o.__dict__.items(), lambda o, k, v: o.__dict__.__setitem__(k, v))
+            else:
+                d = getattr(obj, "__dict__", None)
+                if isinstance(d, dict) and type(obj).__module__.startswith("utype"):
+                    fix(obj, lambda o: o.__dict__.items(), lambda o, k, v: o.__dict__.__setitem__(k, v))
+    return n
+
+
 def anchor_codes():
     """Code objects of the lazily-initialising functions named in the property anchors."""
     from utype.parser.base import BaseParser
@@ -235,6 +334,30 @@ class Scheduler:
         if self.abort:
             raise StepBudgetExceeded("aborted")
 
+    def block(self, me, lock):
+        """Baton holder `me` cannot take `lock`: park it until the lock is released."""
+        self.blocked[me] = lock
+        run = self.runnable()
+        if not run:
+            self.blocked.pop(me, None)
+            self.errors.append("deadlock: all remaining threads blocked on locks")
+            self.abort = True
+            raise StepBudgetExceeded("deadlock")
+        # +1: like a finishing segment, a blocking segment must not be cut short by replay
+        self.segments.append([me, self.seg_steps + 1])
+        self.switch_locs.append(("<lock>", 0))
+        self.seg_steps = 0
+        nxt = self.policy.next_after_finish(me, run)
+        self.current = nxt
+        self.sems[nxt].release()
+        self.sems[me].acquire()
+        if self.abort:
+            raise StepBudgetExceeded("aborted")
+
+    def unblock(self, lock):
+        for t in [t for t, l in self.blocked.items() if l is lock]:
+            self.blocked.pop(t, None)
+
     def finish(self, tid):
         # +1: a finishing segment must never be exhausted by replay before the thread really ends
         self.segments.append([tid, self.seg_steps + 1])
@@ -289,6 +412,7 @@ class Scheduler:
                 self.finish(tid)
 
         ths = [threading.Thread(target=body, args=(t,), name=f"sim-{t}", daemon=True) for t in range(self.n)]
+        CURRENT[0] = self
         for t in ths:
             t.start()
         first = self.policy.first(self.runnable())
@@ -301,6 +425,7 @@ class Scheduler:
                 self.sems[t].release()
         for t in ths:
             t.join(timeout=10)
+        CURRENT[0] = None
         return results
 
     def interleaving_hash(self):
